@@ -108,13 +108,31 @@ fn kind() -> impl Strategy<Value = Kind> {
     ]
 }
 
+/// byte strings that are not the XDR of an address: garbage, well-formed XDR of other value types,
+/// a truncated address
+fn undecodable_address(env: &soroban_sdk::Env, real: &Address, seed: u64) -> Vec<u8> {
+    use crate::oracle::Sv;
+    match seed % 6 {
+        0 => vec![0xde, 0xad, 0xbe, 0xef],
+        1 => Sv::str("GAAAAAAAAAAAAAAAAAAAAAAAAAAAAAAAAAAAAAAAAAAAAAAAAAAAAWHF").xdr(),
+        2 => Sv::U32(7).xdr(),
+        3 => Sv::Bytes(vec![7u8; 32]).xdr(),
+        4 => Sv::Vec(vec![addr_sv(real)]).xdr(),
+        _ => {
+            let mut v = address_xdr(env, real);
+            v.truncate(10);
+            v
+        }
+    }
+}
+
 impl Property for C04 {
     type Case = Case;
     fn id(&self) -> &'static str {
         "C04"
     }
     fn rule(&self) -> &'static str {
-        "proptest single cases: world = gateway + gas service + ITS (current-source token injected natively) with one ITS-deployed token, one registered canonical token with 500 in custody, an executable probe; a trusted-chain history of 0-6 set/remove operations over 3 chains; a conforming delivery (ReceiveFromHub wrapping a mint / a release / a transfer with data / a deploy with or without minter) and at most one deviation from the statement's list (never approved; approved with other payload / id / source address / destination; already executed; approval re-submitted after execution; source chain not the hub; source address not the hub address; SendToHub wrapper; raw inner message; inner type 2; origin never trusted / removed again; unknown token; undecodable recipient or minter; amount 2^127; truncated / padded payload; any byte-level mutation - bit flip, dirty type word or padding, shifted offset, altered length - that leaves a non-canonical encoding). Oracle: effects (exact balance / custody / registry delta, gateway status executed, second delivery refused) iff no deviation; otherwise execute fails and the ledger snapshot is identical (approval still approved, not executed). non-trivial = a deviation is present, or the trust history contains a removal; distinct by Debug hash"
+        "proptest single cases: world = gateway + gas service + ITS (current-source token injected natively) with one ITS-deployed token, one registered canonical token with 500 in custody, an executable probe; a trusted-chain history of 0-6 set/remove operations over 3 chains; a conforming delivery (ReceiveFromHub wrapping a mint / a release / a transfer with data / a deploy with or without minter) and at most one deviation from the statement's list (never approved; approved with other payload / id / source address / destination; already executed; approval re-submitted after execution; source chain not the hub; source address not the hub address; SendToHub wrapper; raw inner message; inner type 2; origin never trusted / removed again; unknown token; undecodable recipient or minter (garbage, well-formed XDR of a string / number / bytes / vector, truncated address); amount 2^127; truncated / padded payload; any byte-level mutation - bit flip, dirty type word or padding, shifted offset, altered length - that leaves a non-canonical encoding). Oracle: effects (exact balance / custody / registry delta, gateway status executed, second delivery refused) iff no deviation; otherwise execute fails and the ledger snapshot is identical (approval still approved, not executed). non-trivial = a deviation is present, or the trust history contains a removal; distinct by Debug hash"
     }
     fn cases(&self, tier: Tier) -> u64 {
         tier.pick(15000, 200000)
@@ -130,6 +148,9 @@ impl Property for C04 {
             v.push(Case { trust_history: vec![], origin: 0, kind: k, amount: 5, data_len: 4, seed: 1, dev: Dev::None });
             for d in DEVS {
                 v.push(Case { trust_history: vec![], origin: 0, kind: k, amount: 5, data_len: 4, seed: 1, dev: d });
+            }
+            for seed in 0..6u64 {
+                v.push(Case { trust_history: vec![], origin: 0, kind: k, amount: 5, data_len: 4, seed, dev: Dev::BadRecipientOrMinter });
             }
             for m in [super::c10::Mutation::DirtyHigh(0, 0), super::c10::Mutation::DirtyHigh(0, 23), super::c10::Mutation::DirtyTail(3), super::c10::Mutation::WordAdd(1, 32)] {
                 v.push(Case { trust_history: vec![], origin: 0, kind: k, amount: 5, data_len: 4, seed: 1, dev: Dev::Mutated(m) });
@@ -218,8 +239,8 @@ impl Property for C04 {
         match (&mut inner, case.dev) {
             (AMsg::Transfer { token_id, .. }, Dev::UnknownToken) => *token_id = h32("unknown-token", 1),
             (AMsg::Deploy { .. }, Dev::UnknownToken) => applicable = false,
-            (AMsg::Transfer { dest, .. }, Dev::BadRecipientOrMinter) => *dest = vec![0xde, 0xad, 0xbe, 0xef],
-            (AMsg::Deploy { minter, .. }, Dev::BadRecipientOrMinter) => *minter = vec![0xde, 0xad, 0xbe, 0xef],
+            (AMsg::Transfer { dest, .. }, Dev::BadRecipientOrMinter) => *dest = undecodable_address(env, &recipient, case.seed),
+            (AMsg::Deploy { minter, .. }, Dev::BadRecipientOrMinter) => *minter = undecodable_address(env, &minter_addr, case.seed),
             (AMsg::Transfer { amount, .. }, Dev::AmountTooLarge) => *amount = word_u128(1u128 << 127),
             (AMsg::Deploy { .. }, Dev::AmountTooLarge) => applicable = false,
             _ => {}
